@@ -1,6 +1,7 @@
 (** Term/FarkasAll.v — dual-cone pairing and convexity for EVERY cone kind of the development
-    (zero, nonnegative, second-order: Farkas.v; exponential: PairExp.v; power and generalised
-    power with dyadic exponents: PairPow.v; PSD triangle: PairPsd.v), hence the Farkas and
+    (zero, nonnegative, second-order: Farkas.v; exponential: PairExp.v; power cones with
+    any exponent -- short dyadic in algebraic form, otherwise the real-exponent cone -- and generalised
+    power cones with dyadic exponents: PairPow.v; PSD triangle: PairPsd.v), hence the Farkas and
     unboundedness theorems for arbitrary products of these cones, with no hypothesis on the
     cone list. *)
 From Coq Require Import List ZArith NArith Reals Lra Lia Bool.
